@@ -315,6 +315,31 @@ PROPS['C19'] = {
         'outside the claim: parenthesised groups (not in the statement\'s list of documented syntax; Display writes no parentheses, so `(a; b), c` prints as `a; b, c`), and the observations of DESIGN.md 8.22 on number classification (C20)',
     ],
 }
+PROPS['C20'] = {
+    'units': ['contexts_a', 'contexts_b'],
+    'functions': ['parse_terms.rs::parse_term', 'parse_goals.rs::get_left_and_right', 's_linked_list.rs::parse_linked_list', 'parse_terms.rs::parse_arguments'],
+    'oracles': {'*': 'c20_contexts', '#argument_not_infix': 'c20_known_infix', '#argument_as_alone': 'c20_known_flags'},
+    'bounded': [('c20_contexts', 'the property itself, BOUNDED: 196 term texts that fit at least one context (atoms, variables, $_, integers, floats, signed numbers, quoted atoms, lists, complex terms, functions, infix arithmetic, punctuation atoms, escapes, inner white space, '
+                                 'unbalanced brackets, a digit next to each punctuation character; eight of them also with white space around) written in nine contexts (only argument / second of three arguments of a complex term, argument of a built-in, of a query, only / second element '
+                                 'of a list, right of `=`, left of `>=`, right of an arithmetic infix) wherever the text stays one term of the context: the term that comes out against parse_term(text). A deviation is passed over only if it is a '
+                                 'known finding by context, shape of the text AND the two values (replay/src/o_contexts.rs known_deviation)'),
+                ('c20_known_flags', 'the known finding "flags": digits, periods, signs and blanks in an argument context (listed by shape; fails while the deviation is there)'),
+                ('c20_known_infix', 'the known finding "infix": a text with an arithmetic infix in an argument context'),
+                ('c20_known_escape', 'the known finding "escape": a backslash outside quotation marks in an argument context'),
+                ('c20_known_paren', 'the known finding "paren": a quoted or escaped parenthesis in an argument context')],
+    'not_covered': [
+        'PROVED (Verus, verbatim bodies, overlay contracts contracts/*+c20.vc): parse_term computes the meaning of a text on its own as specified - trim, first arithmetic infix, else classify (some digit / some period / anything else) and make_term, '
+        'with the two-character escape resolved (#meaning, #flags_inv; unit contexts_a); a list element is parse_term of its trimmed piece of the text between the brackets (parse_linked_list #elements_alone, #elements_inv), '
+        'and so is each operand of an infix (get_left_and_right #operands_alone, #operand_errors; unit contexts_b)',
+        'KNOWN FINDINGS (the property does NOT hold for arguments of complex terms, built-ins and queries): parse_arguments classifies the characters itself, drops backslashes and never looks for an infix; the two obligations that say '
+        'this comes to the meaning of the piece on its own (#argument_not_infix, #argument_as_alone, at both calls of make_term) are not provable and are refuted by the inputs of c20_known_*; a fourth deviation (a quoted or escaped '
+        'parenthesis makes the enclosing term fail) has no obligation in these units and is a finding of the bounded exploration only. Not repaired: one classification for all contexts changes the accepted language in four ways (DESIGN 8.33)',
+        'ASSUMED (T10): parse_term, make_term, check_arithmetic_infix and get_left_and_right are functions of their arguments (clauses #function_of_arguments / #function_of_text where they are callees); '
+        'NOT proved: that the argument contexts hand exactly the text between the parentheses to parse_arguments (parse_complex, parse_subgoal, parse_query: covered by the bounded exploration only), the tail variable of a list (read by make_logic_var), '
+        'and that the two scanners of parse_arguments agree with parse_term beyond the known findings - because the two obligations fail on the current tree for the known reasons, a further disagreement introduced in parse_arguments is '
+        'caught only by the bounded exploration c20_contexts',
+    ],
+}
 PROPS['C02'] = {
     'units': ['solver'],
     'functions': SOLVER_FNS,
@@ -352,8 +377,9 @@ TRUSTED_TEXT = {
     'T1': "rustc's derived PartialEq/Clone on the extracted types behave as spec `ueq` / identity (assume_specification + PartialEqSpecImpl)",
     'T2': 'vstd specifications of Vec, Rc, Box, Option, String, slices; axioms added where vstd has none are listed individually',
     'T3': 'assumed specifications for std string/char primitives (listed individually)',
-    'T4': 'extractor rewrite rules R1-R15 (syntactic; counts per rule reported in coverage.rewrites)',
+    'T4': 'extractor rewrite rules R1-R16 (syntactic; counts per rule reported in coverage.rewrites)',
     'T5': 'Verus 0.2026.09.13 + its Z3; rustc front end',
     'T9': 'the id counter LOGIC_VAR_ID (static mut, outside Verus) as ghost state `ids` passed along by the functions that touch it (spec/counter_state.rs): changed only by next_id (+1, returns the new value), set_var_id, clear_id / start_query',
+    'T10': 'C20 only: parse_term, make_term, check_arithmetic_infix and get_left_and_right are FUNCTIONS of their arguments (no global state, no interior mutability): assumed where they are callees, through uninterpreted spec functions alone / mk / arith_infix / operands (spec/contexts.rs)',
     'T8': 'the node heap (spec/solver.rs): Rc<RefCell<SolutionNode>> accesses as accessor calls on one ghost heap passed along (R15); Rc::clone keeps identity; a field access through a RefMut touches that field of that node only; the raw-pointer writes of set_no_backtracking set no_backtracking flags only',
 }
